@@ -119,6 +119,7 @@ type Result struct {
 	InflightGC  bool // a GC fault fired while >=1 other task was parked inside an operation
 	PanicOver   bool // set by harness through NotePanic while others were in flight
 	Unstalled   bool
+	Background  int64 // library goroutines carried over from earlier runs of the process
 	Leaked      bool  // a goroutine spawned by the library was still blocked when every caller had returned
 	Spawned     int64 // goroutines spawned by the library during the run
 	ClockJumps  int64
@@ -180,7 +181,7 @@ var (
 	siteHit     []uint8 // bit0: reached, bit1: preempted at
 	sig         uint64
 	opSteps     []int64
-	livelockCap int64 = 200_000_000
+	livelockCap int64 = 60_000_000
 )
 
 //go:norace
@@ -368,7 +369,9 @@ func yslow(site uint32, kind int) {
 			kind = KShared
 		}
 	}
+	lastSites[steps&63] = site
 	if steps > livelockCap {
+		LivelockSites = lastSites
 		// a library loop that never terminates under simulation: hand back to main
 		res.Deadlock = true
 		active = false
@@ -538,8 +541,23 @@ func pickNext(forced bool) int32 {
 			n++
 		}
 	}
-	if n == 0 && advanceToNextTimer() {
-		// everybody is blocked but a timer is pending: simulated time passes
+	if n == 0 {
+		// a stalled task is released before simulated time is allowed to pass (a periodic
+		// timer would otherwise keep the others busy for ever while the stalled task holds
+		// what they wait for)
+		for i := int32(0); i < ntasks; i++ {
+			if tasks[i].state == tStalled {
+				tasks[i].state = tRunnable
+				res.Unstalled = true
+				logEvent(EvUnstall, i, i, 0)
+				return i
+			}
+		}
+	}
+	if n == 0 && !callersDone() && advanceToNextTimer() {
+		// a caller is still waiting, everybody is blocked, a timer is pending: simulated
+		// time passes. (Once every caller has returned the run is over: periodic background
+		// work of the library would otherwise keep it alive for ever.)
 		fireDue()
 		for i := int32(0); i < ntasks; i++ {
 			if eligible(i) {
@@ -597,41 +615,11 @@ func pickNext(forced bool) int32 {
 
 //go:norace
 func waitTurn(me int32) {
-	// a goroutine belongs to the run (generation) in which it parked: a library goroutine
-	// left behind by an earlier run must never wake up as a task of a later one
-	g := runGen
-	for turn != me || runGen != g {
-		if runGen != g {
-			runtime.Gosched() // zombie of an earlier run: parked for good
-			continue
-		}
+	for turn != me {
 		if me >= 0 && tasks[me].fire {
 			// a counterpart matched this task's pending channel operation: perform it now
 			// (the counterpart is blocked for real in the matching operation); the task
 			// itself stays parked
-			t := &tasks[me]
-			t.fire = false
-			f := t.waitFn
-			t.waitFn = nil
-			t.nWait = 0
-			f(t.fireIdx)
-			t.fired = true
-		}
-		runtime.Gosched()
-	}
-}
-
-// waitTurnGen is waitTurn for a goroutine that starts parked (its generation is the one
-// it was created in, which may already be over when it first gets to run).
-//
-//go:norace
-func waitTurnGen(me int32, g int64) {
-	for turn != me || runGen != g {
-		if runGen != g {
-			runtime.Gosched()
-			continue
-		}
-		if tasks[me].fire {
 			t := &tasks[me]
 			t.fire = false
 			f := t.waitFn
@@ -668,11 +656,12 @@ func switchAway(site uint32, kind uint8) {
 		// blocked with nobody to make progress: deadlock - unless only goroutines spawned
 		// by the library are left (a leaked goroutine is not a caller that never returns)
 		if callersDone() {
+			// only library goroutines are left and all of them wait: the run is over, the
+			// goroutine stays parked and takes part in the next run of this process
 			res.Leaked = true
 			finishRun()
-			for {
-				runtime.Gosched()
-			}
+			waitTurn(me)
+			return
 		}
 		deadlockExit()
 		return
@@ -746,12 +735,19 @@ func blocked() {
 
 const inf = int64(1) << 62
 
+// opBackground is the operation id of a library goroutine that outlived the run that
+// started it.
+const opBackground = -3
+
 // position of a task / of an event trigger as a comparable pair
 //
 //go:norace
 func evPos(op int32, opStep int64) (int64, int64) {
 	if op == -2 {
 		return inf, 0
+	}
+	if op == opBackground {
+		return -3, opStep
 	}
 	if opStep < 0 {
 		return int64(op), inf
@@ -764,6 +760,9 @@ func taskPos(i int32) (int64, int64) {
 	t := &tasks[i]
 	if t.state == tDone || t.op == -2 {
 		return inf, 0
+	}
+	if t.op == opBackground {
+		return -3, t.opStep
 	}
 	if t.op == -1 {
 		return int64(t.lastOp), inf
@@ -848,19 +847,19 @@ func lowestEligible(me int32) int32 {
 			return i
 		}
 	}
-	if !(me >= 0 && eligible(me)) && advanceToNextTimer() {
+	for i := int32(0); i < ntasks; i++ {
+		if tasks[i].state == tStalled {
+			tasks[i].state = tRunnable
+			return i
+		}
+	}
+	if !(me >= 0 && eligible(me)) && !callersDone() && advanceToNextTimer() {
 		// everybody is blocked but a timer is pending: simulated time passes
 		fireDue()
 		for i := int32(0); i < ntasks; i++ {
 			if eligible(i) {
 				return i
 			}
-		}
-	}
-	for i := int32(0); i < ntasks; i++ {
-		if tasks[i].state == tStalled {
-			tasks[i].state = tRunnable
-			return i
 		}
 	}
 	if me >= 0 && eligible(me) {
@@ -883,9 +882,8 @@ func scriptSwitch(site uint32, kind uint8, next int32) {
 		if callersDone() {
 			res.Leaked = true
 			finishRun()
-			for {
-				runtime.Gosched()
-			}
+			waitTurn(me)
+			return
 		}
 		deadlockExit()
 		return
@@ -1018,8 +1016,8 @@ func Fault() string { return simFault }
 
 var simFault string
 
-// runGen counts runs; see waitTurn.
-var runGen int64
+// the last 64 yield sites (diagnosis of a run that exceeded the step cap)
+var lastSites, LivelockSites [64]uint32
 
 // simProcs is the value runtime.GOMAXPROCS(0) / runtime.NumCPU() have for the library in
 // this run (a per-run configuration knob: code that switches strategy on the number of
@@ -1042,8 +1040,8 @@ func CurTask() int {
 func Steps() int64 { return steps }
 
 //go:norace
-func taskMain(id int32, gen int64, body func(id int)) {
-	waitTurnGen(id, gen)
+func taskMain(id int32, body func(id int)) {
+	waitTurn(id)
 	body(int(id))
 	taskDone(id)
 }
@@ -1064,8 +1062,12 @@ func taskDone(id int32) {
 
 //go:norace
 func setup(n int, p Policy, nops int) {
-	runGen++
-	ntasks = int32(n)
+	// caller tasks occupy slots [0, MaxCallers); goroutines started by the library live in
+	// the slots above and PERSIST from run to run (a janitor goroutine belongs to the
+	// process, not to the call that happened to start it)
+	if ntasks < MaxCallers {
+		ntasks = MaxCallers
+	}
 	pol = p
 	rng = p.Seed
 	rngSel = p.Seed ^ 0x5e1ec7c0ffee
@@ -1082,14 +1084,23 @@ func setup(n int, p Policy, nops int) {
 	for i := range opSteps {
 		opSteps[i] = 0
 	}
-	for i := 0; i < n; i++ {
-		tasks[i] = task{state: tRunnable, op: -1, lastOp: -1}
+	for i := 0; i < MaxCallers; i++ {
+		if i < n {
+			tasks[i] = task{state: tRunnable, op: -1, lastOp: -1}
+		} else {
+			tasks[i] = task{state: tDone, op: -2, lastOp: -1}
+		}
+	}
+	for i := int32(MaxCallers); i < ntasks; i++ {
+		if tasks[i].state != tDone {
+			// a background goroutine of the library carried over from an earlier run
+			tasks[i].op, tasks[i].opStep, tasks[i].lastOp = opBackground, 0, -1
+			res.Background++
+		}
 	}
 	thrShared, thrAPI, thrBound = thr(p.PShared), thr(p.PAPI), thr(p.PBound)
 	nextPlain = 1 << 62
 	gcNext, scriptNext, pctNext, clkNext = 0, 0, 0, 0
-	onceReset()
-	timersReset()
 	herdPhase, stallArmed = false, false
 	pctPoints = pctBuf[:0]
 	switch p.Kind {
@@ -1180,7 +1191,7 @@ func Run(n int, nops int, p Policy, body func(id int)) Result {
 	}
 	setup(n, p, nops)
 	for i := 0; i < n; i++ {
-		go taskMain(int32(i), runGen, body)
+		go taskMain(int32(i), body)
 	}
 	begin(firstTask())
 	return collect()
